@@ -44,6 +44,10 @@ class C04(Spec):
         'works on integer sample positions; "ends after t" is k + round(duration*fs) > m (the trial still had samples to play at m)',
         'the model follows queue.py with notes/C03_fix_1.diff and notes/C04_fix_1..5.diff applied',
         'pop_buffer(decrement=False) and direct calls of cancel()/requeue()/next_trial() from outside are not modelled',
+        'a pause made from inside an "added" notification is not an operation of the Lean model: pause(t0 of the notified trial) '
+        'is checked against the model through the plain history pop(p-c); pop(1); pause(p); pop(n-(p-c)) (second request\'s '
+        'one sample dropped), whose equality with the re-entrant run of the real queue - output, notifications, counters, '
+        'clock - is checked on every such case; pause() without a time from inside a notification is checked by the oracle only',
     ]
     ASSUMPTIONS = ['pause/resume times are on the sample grid (t0 + m/fs)',
                    'durations are not within 1e-6 sample of an integer number of samples unless exactly on it']
@@ -53,7 +57,11 @@ class C04(Spec):
             'future; plus a stream pausing exactly at trial ends (t = (k+n)/fs) across the fs list; every third history '
             'pauses and resumes the queue again after it ran dry; an odd-order stream (pause before anything was generated, '
             'pause() then pause(t), two resumes, resume without pause, resume beyond 2^31 samples, the same pause twice, '
-            'single-sample requests around a pause); half of the histories re-spelled by the caller (see C02). '
+            'single-sample requests around a pause); a re-entrant stream: the consumer of the "added" notifications calls '
+            'pause(info[t0]) or pause() from inside the K-th notification, i.e. while pop_buffer is being served (first, last, '
+            'any trial of the request), resume / further pauses between requests - pause(t0) compared with the model through '
+            'the equivalent plain history pop(p-c); pop(1); pause(p); pop(n-(p-c)), pause() through the oracle only; '
+            'half of the histories re-spelled by the caller (see C02). '
             'Non-trivial = at least one trial removed.')
     SEARCH_SECONDS = {'quick': 20, 'thorough': 240}
 
@@ -89,6 +97,43 @@ class C04(Spec):
         ops.append(['pop', drain_size(c)])
         ops.append(['pop', 7])
         return ops
+
+    def reentrant_history(self, rng, c, nrounds):
+        ops, reent, earlier = [], [], []
+        for r in range(nrounds):
+            if rng.random() < 0.4:
+                ops.append(['pop', rng.choice([1, 2, 4, 9])])
+            n = rng.choice([1, 2, 3, 5, 8, 13, 21, 40])
+            before = QC.run_case(dict(c, ops=list(ops), reent=list(reent)))
+            after = QC.run_case(dict(c, ops=ops + [['pop', n]], reent=list(reent)))
+            if any(s.get('status') != 'ok' for s in after.steps):
+                break
+            new = len(after.added) - len(before.added)
+            ops.append(['pop', n])
+            if not new:
+                continue
+            # first / last / any trial announced within this request (first = the request begins on a trial onset when
+            # the clock stands on one; last = little or nothing of the request is left)
+            K = len(before.added) + rng.choice([0, new - 1, rng.randrange(new)])
+            how = rng.choice(['pt', 'pt', 'p'])
+            reent.append([K, how])
+            ts, trials, tr = observe(dict(c, ops=ops, reent=reent))
+            pos = tr.reent[-1]['pos'] if tr.reent else ts
+            if rng.random() < 0.5:
+                ops.append(['pop', rng.choice([1, 3, 7])])
+            if how == 'pt' and rng.random() < 0.3:
+                m = rng.choice([m_ for m_ in pause_candidates(ts, trials, earlier + [pos], rng) if m_ <= pos] or [pos])
+                ops.append(['pause', m])          # a second, ordinary pause at or before the point held
+                earlier.append(m)
+                pos = m
+            ts, _, _ = observe(dict(c, ops=ops, reent=reent))
+            if how == 'pt':
+                ops.append(['resume', rng.choice([pos, pos, pos + 1, pos + 4, ts, ts + 6, None, None])])
+            else:
+                ops.append(['resume', rng.choice([None, None, ts + 3])])
+        ops.append(['pop', drain_size(c)])
+        ops.append(['pop', 7])
+        return ops, reent
 
     def cases(self, rng, tier):
         for c in self.fixed_cases():
@@ -213,6 +258,21 @@ class C04(Spec):
                 QC.spell(rng, c, p=1.0)
                 c.pop('build', None)
             yield c
+        # re-entrancy: the consumer of the 'added' notifications holds the queue when the K-th trial starts - it calls
+        # q.pause(info['t0']) or q.pause() from inside the notification, i.e. while pop_buffer is being served; resume
+        # (and further pauses) between requests
+        for it in range(70 if tier == 'quick' else 1400):
+            nst = rng.randint(1, 3)
+            c = {'kind': 'reentrant', 'fs': rng.choice(QC.FS_LIST)}
+            c.update(QC.policy_fields(rng.choice(QC.POLICIES), rng, nst))
+            c['t0'] = rng.choice([0, 0, 0.5, 1.2345])
+            c['stims'] = QC.rand_stims(rng, nst, max_len=9, max_trials=3)
+            if rng.random() < 0.2:
+                rng.choice(c['stims'])['xdur'] = rng.choice([1, 3, 10, 25])
+            if it % 2:
+                QC.spell(rng, c, p=1.0)
+            c['ops'], c['reent'] = self.reentrant_history(rng, c, rng.randint(1, 3))
+            yield c
         # pauses exactly at trial ends, latest first, across sampling rates
         reps = 1 if tier == 'quick' else 6
         for fs in QC.FS_LIST:
@@ -254,18 +314,64 @@ class C04(Spec):
         yield dict(b, stims=[a10], ops=[['pop', 5], ['pause', 1000], ['pop', 5]])
         yield dict(b, stims=[{'src': 'arr', 'len': 5, 'trials': 40, 'delays': [0]}],
                    ops=[['pop', 60], ['pause', 30]])
+        # the notification consumer holds the queue when the second / first / last trial starts
+        for pol in ('fifo', 'interleaved', 'random', 'blockedrandom', 'grouped'):
+            for how in ('pt', 'p'):
+                for K in (0, 1, 2):
+                    yield dict(b, kind='reentrant', policy=pol, gsize=2, stims=[a10, dict(a10, src='cos2', trials=1)],
+                               ops=[['pop', 40], ['pop', 3], ['resume', None], ['pop', 300], ['pop', 5]], reent=[[K, how]])
 
     def model_lines(self, c):
+        if c.get('reent'):
+            return QC.reentrant_lines(c)[0]
         return QC.model_lines(c)
 
     def impl_lines(self, c):
+        if c.get('reent'):
+            return QC.reentrant_lines(c)[1]
         return QC.impl_lines(c)
+
+    @staticmethod
+    def expand_reentrant(steps):
+        """A request during which the consumer paused the queue from inside the 'added' notification of trial K (at
+        sample p) is judged as what the property text sees: the request up to p (trial K notified as its last event),
+        the pause - pause(p) or pause() - made at that instant, and the rest of the request, served while paused."""
+        out, count = [], 0
+        for s in steps:
+            evs = s.get('re') or []
+            adds = s.get('add', [])
+            if not evs or s.get('status') != 'ok':
+                out.append(s)
+                count += len(adds)
+                continue
+            ev = evs[0]
+            a = ev['pos'] - s['c0']
+            cut = ev['K'] - count + 1
+            n = s['op'][1]
+            out.append(dict(s, op=['pop', a], pseudo=True, cells=s['cells'][:a], add=adds[:cut], rm=[], rem=ev['rem0'],
+                            ts=ev['ts0'], empty=False, re=[]))
+            out.append({'op': ['pause', ev['pos'] if ev['how'] == 'pt' else None], 'status': 'ok', 'pseudo': True,
+                        'cells': [], 'add': [], 'rm': list(ev['rm']), 'rem': ev['rem1'], 'ts': ev['ts1'], 'empty': False,
+                        'inside': (ev['K'], s['op'])})
+            out.append(dict(s, op=['pop', n - a], pseudo=True, cells=s['cells'][a:], add=adds[cut:],
+                            rm=list(s['rm'][len(ev['rm']):]), re=evs[1:]))
+            count += len(adds)
+        return out
 
     def nontrivial(self, c, out):
         return any(' rm=' in l and ' rm=- ' not in l for l in out)
 
     # ---- the property -------------------------------------------------------
     def oracle(self, c, out):
+        f = self._oracle(c, out)
+        if f is not None and c.get('reent'):
+            tr = QC.run_case(c)
+            calls = '; '.join(f"{'pause(t0 of that trial)' if e['how'] == 'pt' else 'pause()'} from inside the 'added' "
+                              f"notification of trial {e['K']} (stimulus {e['key']}, onset sample {e['pos']})" for e in tr.reent)
+            f += f' [re-entrant history: the notification consumer called {calls}]'
+        return f
+
+    def _oracle(self, c, out):
         if any(l.startswith('HARNESS-EXC') for l in out):
             return out[0]
         tr = QC.run_case(c)
@@ -282,10 +388,16 @@ class C04(Spec):
         cut = False          # a pause(t) put the queue in the "nothing playing" state
         rem = [r for r, st in zip(req, c['stims']) if not st.get('late')]   # late stimuli: keys follow on append
         was_empty = False
-        for s in tr.steps:
+        for s in self.expand_reentrant(tr.steps):
             op = s['op']
             if s['status'] == 'dead':
                 break
+            if s.get('re') and s['status'] != 'ok':
+                e = s['re'][0]
+                call = "pause(info['t0'])" if e['how'] == 'pt' else 'pause()'
+                return (f'{op} raised: {s["status"]} - the consumer called {call} from inside the "added" notification of '
+                        f'trial {e["K"]} (stimulus {e["key"]}, sample {e["pos"]})'
+                        + ('' if e['status'] == 'ok' else '; the pause call itself raised'))
             if op[0] == 'append':
                 if s['status'] != 'ok':
                     return f'{op} raised: {s["status"]}'
@@ -299,7 +411,10 @@ class C04(Spec):
                 if s['status'] != 'err ValueError':
                     return f'pause at sample {op[1]} with the clock at {clock} was not rejected with ValueError: {s["status"]}'
                 return None      # history leaves the quantifier (t not after the clock)
-            if op[0] == 'pop' and op[1] <= 0:
+            if op[0] == 'pop' and op[1] <= 0 and s.get('pseudo'):
+                if s['cells']:
+                    return 'harness: bad split of a re-entrant request'
+            elif op[0] == 'pop' and op[1] <= 0:
                 if s['status'] != 'err ValueError':
                     return f'pop_buffer({op[1]}) did not raise ValueError'
                 continue
@@ -373,6 +488,10 @@ class C04(Spec):
 
     def shrink_candidates(self, c):
         ops = c['ops']
+        for i, e in enumerate(c.get('reent') or []):
+            yield dict(c, reent=c['reent'][:i] + c['reent'][i + 1:])
+            if e[0] > 0:
+                yield dict(c, reent=c['reent'][:i] + [[e[0] - 1, e[1]]] + c['reent'][i + 1:])
         for i in range(len(ops) - 1, -1, -1):
             yield dict(c, ops=ops[:i] + ops[i + 1:])
         for i in range(len(ops) - 1):
@@ -404,7 +523,9 @@ class C04(Spec):
 
     def describe(self, c):
         return (f"{QC.policy_name(c)} gsize={c.get('gsize')} fs={c['fs']} t0={c['t0']} "
-                f"stims={c['stims']} ops={c['ops'][:14]}{'...' if len(c['ops']) > 14 else ''}")
+                f"stims={c['stims']} ops={c['ops'][:14]}{'...' if len(c['ops']) > 14 else ''}"
+                + (f" reent={c['reent']} (the 'added' consumer calls pause(info['t0']) [pt] / pause() [p] from inside the "
+                   f"K-th notification; model/impl lines below are those of the equivalent plain history)" if c.get('reent') else ''))
 
 
 SPEC = C04()
